@@ -324,6 +324,8 @@ def run(rep):
     thorough = rep.tier == 'thorough'
     res = tlc.require_ok(tlc.run('MC_Prim', workers=4, timeout=1200), 'MC_Prim')
     rep.add_tlc(res, 'MC_Prim (reference primitives: round trip, refusal, minimality for 0..70000, both signs)')
+    from . import c11_engine
+    c11_engine.run_engine(rep, thorough)
     ev = int_events(rep, thorough) + flag_events(rep, thorough) + message_flag_events(rep, thorough) + mpint_events(rep, thorough) + ts_events(rep, thorough)
     kinds = {}
     for e in ev:
